@@ -44,6 +44,13 @@ pub enum Fate {
     CloseThenLinger { ns: Option<u64> },
     /// works for `before_ns`, closes stdout and stderr, runs on for `after_ns`, then ends with 0
     LateClose { before_ns: u64, after_ns: u64 },
+    /// closes ONE of its output streams (`exec >&-` / `exec 2>&-`) after its first lines, runs on
+    /// for `ns` and then writes one more line to the other stream
+    CloseOne { fd: u8, ns: u64 },
+    /// its lines trickle out, one every `every_ns`, alternating between the streams
+    Trickle { every_ns: u64, lines: usize },
+    /// writes to stderr only, a line every 200 ms for `ns`, and one line to stdout at the very end
+    StderrLong { ns: u64 },
     /// passes; its first output lines begin with `>` (`>>> prompt`, `>quoted`): as expectation
     /// lines they follow the command directly and must not be taken for continuation lines
     GtLines,
@@ -190,6 +197,33 @@ impl G {
                 for (fd, text) in [(1u8, format!(">>>{}-a\n", tag)), (1, format!(">{}-b\n", tag)), (2, format!(">={}-e\n", tag)), (1, format!("{}-c\n", tag))] {
                     ops.push(Op::Out { fd, data: text.as_str().into() });
                 }
+                ops.push(Op::Status { code: 0 });
+            }
+            Fate::CloseOne { fd, ns } => {
+                emit(&mut ops, n, 0);
+                ops.push(Op::CloseFd { fd: *fd });
+                ops.push(Op::Sleep { ns: *ns });
+                let other = if *fd == 1 { 2 } else { 1 };
+                ops.push(out_line(other, n));
+                ops.push(Op::Status { code: 0 });
+            }
+            Fate::Trickle { every_ns, lines } => {
+                for k in 0..*lines {
+                    ops.push(Op::Sleep { ns: *every_ns });
+                    ops.push(out_line(if k % 2 == 0 { 1 } else { 2 }, k));
+                }
+                ops.push(Op::Status { code: 0 });
+            }
+            Fate::StderrLong { ns } => {
+                let mut t = 0;
+                let mut k = 0;
+                while t < *ns {
+                    ops.push(out_line(2, k));
+                    ops.push(Op::Sleep { ns: 200 * MS });
+                    t += 200 * MS;
+                    k += 1;
+                }
+                ops.push(out_line(1, k));
                 ops.push(Op::Status { code: 0 });
             }
             Fate::LateClose { before_ns, after_ns } => {
@@ -438,6 +472,15 @@ pub fn fate_catalogue() -> Vec<(&'static str, Plan)> {
         ("bg-late-1500ms", Plan::new(Fate::BgLate { ns: 1500 * MS })),
         ("bg-late-1min", Plan::new(Fate::BgLate { ns: 60 * SEC })),
         ("bg-late-under-limit", Plan::new(Fate::BgLate { ns: 1500 * MS }).cfg(TestCfg { timeout_ns: Some(3 * SEC), ..Default::default() })),
+        ("close-stdout-only", Plan::new(Fate::CloseOne { fd: 1, ns: 700 * MS })),
+        ("close-stderr-only", Plan::new(Fate::CloseOne { fd: 2, ns: 700 * MS })),
+        ("close-stdout-only-under-limit", Plan::new(Fate::CloseOne { fd: 1, ns: 1500 * MS }).cfg(TestCfg { timeout_ns: Some(3 * SEC), ..Default::default() })),
+        ("close-stderr-only-past-limit", Plan::new(Fate::CloseOne { fd: 2, ns: 30 * SEC }).cfg(TestCfg { timeout_ns: Some(2 * SEC), ..Default::default() })),
+        ("trickle-100ms", Plan::new(Fate::Trickle { every_ns: 100 * MS, lines: 12 })),
+        ("trickle-under-limit", Plan::new(Fate::Trickle { every_ns: 300 * MS, lines: 8 }).cfg(TestCfg { timeout_ns: Some(3 * SEC), ..Default::default() })),
+        ("trickle-past-limit", Plan::new(Fate::Trickle { every_ns: 300 * MS, lines: 20 }).cfg(TestCfg { timeout_ns: Some(2 * SEC), ..Default::default() })),
+        ("stderr-long", Plan::new(Fate::StderrLong { ns: 2 * SEC })),
+        ("stderr-long-past-limit", Plan::new(Fate::StderrLong { ns: 5 * SEC }).cfg(TestCfg { timeout_ns: Some(2 * SEC), ..Default::default() })),
         ("gt-lines", Plan::new(Fate::GtLines)),
         ("bracket-lines-ok", Plan::new(Fate::BracketLines { code: 0 })),
         ("bracket-lines-wrong-code", Plan::new(Fate::BracketLines { code: 7 })),
@@ -484,7 +527,7 @@ pub fn lane_fates(tier: Tier, seed: u64) -> Vec<Scenario> {
                     || plan.cfg.skip_code.is_some()
                     // closing the one shell's outputs also swallows scrut's own dividers; a line
                     // written late lands in whichever command of the one shell runs then
-                    || matches!(plan.fate, Fate::CloseThenLinger { .. } | Fate::LateClose { .. } | Fate::BgLate { .. }))
+                    || matches!(plan.fate, Fate::CloseThenLinger { .. } | Fate::LateClose { .. } | Fate::BgLate { .. } | Fate::CloseOne { .. }))
             {
                 continue; // per-test settings are not available in single-script mode
             }
